@@ -3,5 +3,5 @@
 ID=$1; P=$2; B=${3:-20}
 WT=/tmp/try_$$; git -C /repo worktree add -q --detach $WT HEAD || exit 2
 git -C $WT apply --whitespace=nowarn "$P" || { git -C /repo worktree remove --force $WT; exit 2; }
-cd /verif && VERIF_REPO=$WT timeout 3000 ./check $ID --budget $B --no-evidence 2>&1 | grep -E "VIOLATION|key=|ALSO|HARNESS|exit=" | cut -c1-260 | head -12
+cd "$(dirname "$(readlink -f "$0")")/.." && VERIF_REPO=$WT timeout 3000 ./check $ID --budget $B --no-evidence 2>&1 | grep -E "VIOLATION|key=|ALSO|HARNESS|exit=" | cut -c1-260 | head -12
 git -C /repo worktree remove --force $WT; rm -rf $WT
